@@ -217,5 +217,11 @@ PROGRAMS += [
                      ('unrelate', 'c1', 'c3', 2, 'precedes'),
                      ('select_rel', 'one', 'w', V('c1'), [('C', 2, 'precedes')], None),
                      RET(B('+', V('r'), B('*', U('cardinality', V('w')), I(1000))))]),
+    # variables named like the scanner's token kinds (not keywords of the language)
+    ('token_names', [let('number', I(2)), let('string', B('+', V('number'), P('p1'))), let('fraction', B('*', V('string'), I(3))),
+                     let('mod', B('-', V('fraction'), V('number'))), let('minus', B('+', V('mod'), I(1))), let('comma', B('*', V('minus'), V('number'))),
+                     let('dot', I(1)), let('times', B('+', V('dot'), V('comma'))), let('plus', V('times')), let('div', V('plus')),
+                     let('id', B('+', V('div'), P('p2'))), let('lparen', V('id')), let('namespace', V('lparen')), let('arrow', V('namespace')),
+                     RET(B('+', V('arrow'), V('number')))]),
 ]
 NAMES = [n for n, _ in PROGRAMS]
